@@ -6,8 +6,8 @@ FNS = ["new", "initialize", "set_device_size", "allocate_sectors", "release_sect
 UNIT = dict(
     sources={"fs": "src/storage/free_space.rs", "c": "src/constants.rs", "e": "src/error.rs"},
     uses=["use std::collections::BTreeMap;", "use vstd::set_lib::*;"],
-    prelude=["btree_probes.rs"],
-    rules=["range", "omap", "ofilt"],
+    prelude=["btree_probes.rs", "divceil64.rs"],
+    rules=["range", "omap", "ofilt", "divceil_u64"],
     items=[
         ("error_enum", "e"),
         ("const", "c", "FEOX_BLOCK_SIZE"),
